@@ -1,5 +1,5 @@
 """Property -> rule families.  Each entry is a list of callables taking the Run context."""
-import rf_alloc, rf_state, rf_tables, rf_sig, rf_union, rf_flow, rf_vocab, rf_mir2c, rf_code, rf_bounds
+import rf_alloc, rf_state, rf_tables, rf_sig, rf_union, rf_flow, rf_vocab, rf_mir2c, rf_code, rf_bounds, rf_fold
 from lib import facts as F
 
 
@@ -118,6 +118,8 @@ def c11_vocab(run):
 def c10_vocab(run):
     rf_vocab.rf7c(run)
     run.min_instances('RF7c', 30)
+    rf_vocab.rf22(run)
+    run.min_instances('RF22', 1)
 
 
 def c17_rf4(run):
@@ -134,18 +136,39 @@ def c12_rf13(run):
     run.control('RF13', 'rf13_control.c', got == ['callback', 'destination', 'index'])
     rf_bounds.rf13_exits(run)
     run.min_instances('RF13e', 8)
+    rf_bounds.rf13c(run)
+    run.min_instances('RF13c', 2)
 
 
 def c11_rf14(run):
     rf_bounds.rf14(run, BIN_IO[:4])
     run.min_instances('RF14', 1)
+    rf_bounds.rf13c(run)
+    run.min_instances('RF13c', 2)
+
+
+def c02_rf23(run):
+    rf_fold.rf23(run)
+    run.min_instances('RF23', 70)
+
+
+def c01_rf18(run):
+    rf_flow.rf18(run, units=('mir', 'gen'))
+    run.min_instances('RF18', 40)
+
+
+def c04_rf18(run):
+    rf_flow.rf18(run, units=('mir',))
+    run.min_instances('RF18', 8)
 
 
 PLAN = {
+    'C01': [c02_rf8, c02_rf23, c01_rf18],
+    'C04': [c04_rf18],
     'C12': [c12_rf13],
     'C10': [c10_rf6, c10_vocab],
     'C11': [c11_rf6, c11_vocab, c11_rf14],
-    'C02': [c02_rf8],
+    'C02': [c02_rf8, c02_rf23],
     'C20': [c20_rf8, c20_rf6, c20_rf21],
     'C15': [c15_rf17, c15_rf16h],
     'C18': [c18_rf5],
